@@ -28,11 +28,16 @@ type Spec struct {
 	LateTask bool                `json:"late_task"` // the task reports its error only after the closer has started (forced order)
 }
 
-var events = map[int]string{
-	app.KillEvent: "Kill", app.StopEvent: "Stop", app.ErrorEvent: "Error",
-	app.BeforeCommitEvent: "BeforeCommit", app.CommitEvent: "Commit", app.AfterCommitEvent: "AfterCommit",
-	app.BeforeRollbackEvent: "BeforeRollback", app.RollbackEvent: "Rollback", app.AfterRollbackEvent: "AfterRollback",
-	app.BeforeCloseEvent: "BeforeClose", app.AfterCloseEvent: "AfterClose",
+// (a list, not a map keyed by the ids: should two event ids ever coincide, both recorders are
+// registered and the trace oracle sees one event reported under two names)
+var events = []struct {
+	id   int
+	name string
+}{
+	{app.KillEvent, "Kill"}, {app.StopEvent, "Stop"}, {app.ErrorEvent, "Error"},
+	{app.BeforeCommitEvent, "BeforeCommit"}, {app.CommitEvent, "Commit"}, {app.AfterCommitEvent, "AfterCommit"},
+	{app.BeforeRollbackEvent, "BeforeRollback"}, {app.RollbackEvent, "Rollback"}, {app.AfterRollbackEvent, "AfterRollback"},
+	{app.BeforeCloseEvent, "BeforeClose"}, {app.AfterCloseEvent, "AfterClose"},
 }
 
 type logEntry struct {
@@ -95,8 +100,8 @@ func build(sp Spec, o *obs) func() {
 		}
 		// recorders: two on the root (registration order), one on every other scope
 		rec := func(owner app.Scope, lname string) {
-			for id, en := range events {
-				id, en := id, en
+			for _, ev := range events {
+				id, en := ev.id, ev.name
 				owner.On(id, func(data interface{}) error {
 					sc := nameOf(data)
 					o.log = append(o.log, logEntry{o.tick(), en, sc, lname})
